@@ -635,25 +635,38 @@ def dominant (content : Text) (ls le : Nat) (lineEmpty : Bool) (active : List At
       | _, _ => none
     .ok (win.author, overrode)
 
+/-- `active_indices.retain` predicate: the attribution meets the line `[ls, le)`. -/
+def ov (ls le : Nat) (p : Nat × Attr) : Bool := decide (p.2.start < le) && decide (p.2.stop > ls)
+
+/-- `attributions[sorted_indices[next_idx]].start < line_end` -/
+def startsBefore (le : Nat) (p : Nat × Attr) : Bool := decide (p.2.start < le)
+
+/-- the body of the sweep for one line once the active set is known: slice the line, decide
+    whether it is blank, pick the dominant author. -/
+def lineResult (content : Text) (ls le : Nat) (active : List Attr) :
+    Except Err (Option (Str × Option Str)) :=
+  match sliceStr content ls le with
+  | .error e => .error e
+  | .ok lineContent =>
+    match dominant content ls le (lineContent.isEmpty || allWs lineContent) active with
+    | .error e => .error e
+    | .ok d => .ok (some d)
+
 /-- the `for line_num in 1..=line_count` sweep: `pending` = `sorted_indices[next_idx..]`,
     `active` = `active_indices`. -/
 def sweep (content : Text) : List (Nat × Nat) → List (Nat × Attr) → List (Nat × Attr) →
     Except Err (List (Option (Str × Option Str)))
   | [], _, _ => .ok []
   | (ls, le) :: lines, pending, active =>
-    let entering := pending.takeWhile (fun p => decide (p.2.start < le))
-    let pending' := pending.dropWhile (fun p => decide (p.2.start < le))
-    let active' := (active ++ entering).filter (fun p => decide (p.2.start < le) && decide (p.2.stop > ls))
-    match sliceStr content ls le with
+    let entering := pending.takeWhile (startsBefore le)
+    let pending' := pending.dropWhile (startsBefore le)
+    let active' := (active ++ entering).filter (ov ls le)
+    match lineResult content ls le (active'.map (·.2)) with
     | .error e => .error e
-    | .ok lineContent =>
-      let lineEmpty := lineContent.isEmpty || allWs lineContent
-      match dominant content ls le lineEmpty (active'.map (·.2)) with
+    | .ok d =>
+      match sweep content lines pending' active' with
       | .error e => .error e
-      | .ok d =>
-        match sweep content lines pending' active' with
-        | .error e => .error e
-        | .ok rest => .ok (some d :: rest)
+      | .ok rest => .ok (d :: rest)
 
 /-- `merge_consecutive_line_attributions`: (current authorship, current start), 1-based `n`. -/
 def mergeLines : Nat → Option ((Str × Option Str) × Nat) → List (Option (Str × Option Str)) → List LineAttr
